@@ -236,6 +236,9 @@ def do_step(p, step):
         if k == "sendctl":
             p.sendcontrol(chr(step[1]))
             return [0]
+        if k == "add_death":
+            p.add_death_string(cc.sstr_py(step[1]), cc.EXC[step[2]])
+            return [0]
         if k == "terminate":
             rc, out = p.terminate()
             return [0, rc, out]
@@ -383,7 +386,8 @@ class ProxySuite(Suite):
                     break
                 timed = (step[0] == "rut") or (step[0] in ("rup", "expect", "read") and step[2] is not None)
                 # a timed read may return before the rest of the program's output and the prompt have arrived
-                arrived = (not timed) or (TBOT_PROMPT in bytes.fromhex(ch))
+                foreign = step[0] == "expect" and all(x != {"lit": OWN.hex()} for x in step[1])
+                arrived = (not (timed or foreign)) or (TBOT_PROMPT in bytes.fromhex(ch))
                 if dead and arrived and step[0] in ("rup", "rut", "expect", "read") and r != [10]:
                     fails.append(f"the program had ended, but {step!r} gave {r!r} instead of raising CommandEndedException")
                     break
@@ -429,6 +433,9 @@ class ProxySuite(Suite):
             data = bytes.fromhex(ch)
             if timed and any(data.endswith(TBOT_PROMPT[:k]) for k in range(1, len(TBOT_PROMPT))):
                 return "C10:timed-read-splits-shell-prompt"
+            # an expect() for something the program printed, satisfied by a piece that ends inside the shell prompt
+            if step[0] == "expect" and r[0] == 7 and any(data.endswith(TBOT_PROMPT[:k]) for k in range(1, len(TBOT_PROMPT))):
+                return "C10:expect-match-in-piece-ending-inside-shell-prompt"
         return None
 
     def gen(self, tier, rng):
@@ -448,8 +455,15 @@ class ProxySuite(Suite):
             if disciplined:
                 # read to the program's prompt before every line sent (with read-back); nothing is sent after the exit line
                 if early:
-                    if rng.random() < 0.7:
+                    x = rng.random()
+                    if x < 0.5:
                         script.append(rng.choice([["rup", own, None], ["expect", [own], None], ["rup", own, 4096]]))
+                    elif x < 0.75:
+                        # waiting for something the program prints before it exits: whether the match or the shell prompt
+                        # ends the wait depends on the fragmentation (both in one piece: the command has ended)
+                        words = [w for w in (bytes.fromhex(prog["banner"]) + bytes.fromhex(prog["final"])).split() if len(w) >= 4 and w != b"prompt"]
+                        if words:
+                            script.append(["expect", [{"lit": rng.choice(words)[:6].hex()}], None])
                 else:
                     script.append(["rup", own, None])
                     for _ in range(rng.randint(0, 3)):
@@ -485,6 +499,10 @@ class ProxySuite(Suite):
                     script.append(["sendline", {"str": exit_on}, rng.random() < 0.9])
                     if rng.random() < 0.25:
                         script.append(rng.choice([["rup", own, None], ["sendline", {"str": "ping"}, True], ["rut", 512]]))
+            if disciplined and rng.random() < 0.25:
+                # a death string of the test's own on the proxy, never removed: terminate() must still take down exactly
+                # the entry that run() registered for the shell prompt
+                script.insert(0, ["add_death", {"lit": b"FATAL ERROR".hex()}, 1])
             t = rng.random()
             ends = early or (exit_on is not None and any(s[0] == "sendline" and isinstance(s[1], dict) and s[1]["str"] == exit_on for s in script))
             if ends and t < 0.8:
@@ -497,7 +515,8 @@ class ProxySuite(Suite):
             dead_read = False
             if disciplined:
                 if early:
-                    dead_read = bool(script) and script[0][0] in ("rup", "expect") and script[0][2] is None
+                    first = [x for x in script if x[0] != "add_death"][:1]
+                    dead_read = bool(first) and first[0] in (["rup", own, None], ["expect", [own], None])
                 else:
                     for a, b in zip(script, script[1:]):
                         if a[0] == "sendline" and a[1].get("str") == exit_on and b[0] in ("rup", "expect") and b[2] is None:
